@@ -244,10 +244,13 @@ def model_vo_targets():
     return sorted(set('%s/%s.vo' % m for m in mods))
 
 
-def run_lines(exe, lines, timeout=300, shards=1, solo_timeout=180, max_timeouts=None):
-    """Feed case lines to an executable, return output lines (one per case).  `max_timeouts`: after that many cases were
-    decided as 'timeout' the remaining cases of the shard are not run ('not-run') -- for checks in which a hang IS the
-    violation (C19), so that a tree on which every case hangs is reported in minutes."""
+def run_lines(exe, lines, timeout=300, shards=1, solo_timeout=60, max_timeouts=3):
+    """Feed case lines to an executable, return output lines (one per case).  A process that dies or stops answering is
+    restarted on the unanswered cases; the first unanswered case is then decided on its own with `solo_timeout` ('timeout' /
+    'crash(..)' if it does not answer), so that a slow machine is not mistaken for a hang and one bad case does not hide the
+    others.  After `max_timeouts` cases of a shard were decided as 'timeout' the remaining cases of that shard are not run
+    ('not-run'): a tree on which many cases hang is reported in minutes, not hours (every abnormal answer is reported by the
+    runner, so nothing is hidden by stopping early)."""
     if not lines:
         return []
     if shards > 1 and len(lines) >= 4 * shards:
@@ -259,8 +262,6 @@ def run_lines(exe, lines, timeout=300, shards=1, solo_timeout=180, max_timeouts=
         for k, o in enumerate(outs):
             res[k::shards] = o
         return res
-    # one process per attempt; a process that dies or stops answering is restarted on the unanswered cases, so that
-    # a slow machine (many cases per process) is not mistaken for a hang and one bad case does not hide the others
     res = []
     rest = list(lines)
     restarts = 0
@@ -269,7 +270,8 @@ def run_lines(exe, lines, timeout=300, shards=1, solo_timeout=180, max_timeouts=
         if max_timeouts is not None and timeouts >= max_timeouts:
             res += ['not-run'] * len(rest)
             break
-        budget = max(timeout, 60 + 0.5 * len(rest))
+        # generous until a case has really hung on its own; after that the shard is known to contain hangs
+        budget = max(timeout, 60 + 0.5 * len(rest)) if timeouts == 0 else max(60, 20 + 0.1 * len(rest))
         out, timed_out, rc = _run_once(exe, rest, budget)
         res += out
         if len(out) == len(rest):
@@ -279,9 +281,7 @@ def run_lines(exe, lines, timeout=300, shards=1, solo_timeout=180, max_timeouts=
         if restarts > 40:
             res += ['not-run'] * len(rest)
             break
-        if out and timed_out:
-            continue                      # progress was made: go on from the first unanswered case
-        # no progress (or a crash): decide the first unanswered case on its own
+        # decide the first unanswered case on its own: a hang, a crash, or merely a slow machine
         solo, t1, rc1 = _run_once(exe, rest[:1], solo_timeout)
         if len(solo) == 1:
             res += solo
